@@ -5,7 +5,7 @@
    even if no test ever dirties it. *)
 From Coq Require Import Strings.String Strings.Byte.
 From Coq Require Import List Arith Bool.
-From Verif Require Import Generated.C20Reset.
+From Verif Require Import Generated.C20Reset Generated.C20Puts.
 Import ListNotations.
 Local Open Scope string_scope.
 
@@ -138,6 +138,29 @@ Print Assumptions C20_model_fields_are_current.
 Theorem C20_pool_sites_reset_in_order : Forall (fun o => site_ok o = true) site_orders.
 Proof. apply forallb_Forall. vm_compute. reflexivity. Qed.
 Print Assumptions C20_pool_sites_reset_in_order.
+
+(* ---- exclusive ownership: no path of any function puts one object into its pool twice ---- *)
+(* committed: the users that must be in the table (so that it cannot silently go empty) *)
+Definition put_sites : list (string * string) := [
+  ("erpc.session.PreCall", "output"); ("erpc.session.PreSend", "output");
+  ("erpc.session.PreReply", "output"); ("erpc.session.RawPush", "output");
+  ("erpc.session.Push", "ctx"); ("erpc.session.startReadAndHandle.loop1", "ctx");
+  ("socket.rawProto.Pack", "bb"); ("socket.rawProto.Unpack", "bb")
+].
+
+Definition put_once (r : string * string * nat * nat) : bool := Nat.leb (snd r) 1.
+Definition put_site_present (p : string * string) : bool :=
+  existsb (fun r => String.eqb (fst (fst (fst r))) (fst p) && String.eqb (snd (fst (fst r))) (snd p)
+                    && Nat.eqb (snd r) 1) c20_puts.
+
+(* along every path of every function, closure and loop body that returns pooled objects
+   (messages, handler contexts, Args, byte buffers), deferred calls included, each variable is
+   put at most once - the users' side of C20_pool_get_is_exclusive; and every path was followed *)
+Theorem C20_each_object_put_at_most_once :
+  Forall (fun r => put_once r = true) c20_puts /\ c20_puts_truncated = 0 /\
+  Forall (fun p => put_site_present p = true) put_sites.
+Proof. split; [apply forallb_Forall; vm_compute; reflexivity|split; [reflexivity|apply forallb_Forall; vm_compute; reflexivity]]. Qed.
+Print Assumptions C20_each_object_put_at_most_once.
 
 (* non-vacuity: the table is not empty and covers all six structs *)
 Example C20_table_nonempty :
